@@ -2278,7 +2278,27 @@ func ruleC01Regex(r *Run) {
 			}
 		}
 		if nTrue == 0 {
-			r.Check(rule, construct, w.InstrPos(ret), true, "the verdict is false on every path to this return")
+			// "no match" is the compiled pattern's verdict as well: a pre-filter in front of it (a minimum length, a
+			// suffix test) is one more hand-written statement of the grammar, and wrong as soon as it is computed from
+			// another spelling of the pattern (the regex-escaped text, the pattern with its optional part)
+			unscanned := ""
+			for _, p := range paths {
+				scanned := false
+				for _, b := range p.blocks {
+					for _, x := range b.Instrs {
+						if x == in {
+							break
+						}
+						if isScan(x, p.pred) {
+							scanned = true
+						}
+					}
+				}
+				if !scanned && unscanned == "" {
+					unscanned = fmt.Sprintf("a path (%d blocks) answers 'no match' without having run the route's compiled pattern", len(p.blocks))
+				}
+			}
+			r.Check(rule, construct, w.InstrPos(ret), unscanned == "", map[bool]string{true: "the verdict is false on every path to this return, and each of them ran the compiled pattern first", false: unscanned + ": a pre-filter inside the scan function rejects paths by a criterion of its own (length, prefix, suffix) — the pattern is the only statement of what matches"}[unscanned == ""])
 			return
 		}
 		r.Check(rule, construct, w.InstrPos(ret), bad == "", map[bool]string{true: fmt.Sprintf("on each of the %d path(s) on which the verdict can be true, r.regex was matched against the request path", nTrue), false: bad + ": the grammar ({name} = one non-empty segment, custom regexes, '.' literal, optional parts) is stated by the compiled pattern only, a shortcut re-implements it"}[bad == ""])
